@@ -203,7 +203,7 @@ fn snippet(rng: &mut Rng, focus: &str, m: &Mix, out: &mut Vec<Op>) {
     let gl = |i: u16| RootRef { g: true, i };
     match focus {
         // dense survivors: every line of a block keeps a live object next to dead ones
-        "C07" | "C08" | "C31" | "C34" if focus != "C34" || rng.chance(1, 3) => {
+        "C07" | "C08" | "C31" | "C34" if (focus != "C34" || rng.chance(1, 3)) && (focus != "C31" || rng.chance(2, 3)) => {
             let n = rng.range(200, 700) as u16;
             let keep_every = rng.range(2, 4) as u16;
             let holder = gl(rng.below(NG) as u16);
@@ -222,7 +222,13 @@ fn snippet(rng: &mut Rng, focus: &str, m: &Mix, out: &mut Vec<Op>) {
             out.push(Op::Probe);
         }
         // several chunk regions in one space, then free the oldest region (the tail of the list)
-        "C28" | "C29" => {
+        "C28" | "C29" | "C31" => {
+            // sometimes one object that needs a region of several chunks
+            if rng.chance(1, 3) {
+                out.push(Op::Alloc { size: rng.range(5 << 20, 9 << 20) as usize, align: 8, offset: 0, sem: SEM_LOS, nrefs: 2, kind: 0, root: l(7) });
+                out.push(Op::Drop { root: l(7) });
+                out.push(Op::Gc { force: true, exhaustive: true });
+            }
             let n = rng.range(4, 12) as u16;
             for j in 0..n {
                 out.push(Op::Alloc {
@@ -570,6 +576,8 @@ pub fn profile(focus: &str) -> Profile {
         "C17" => {
             plans = vec!["SemiSpace", "GenCopy", "GenImmix", "Immix", "StickyImmix"];
             snippet_pct = 10;
+            // (a pinned object is the case where the winner of a forwarding race declines to move)
+            m.pin = 3;
             m.write = 34;
             m.gc = 5;
             shape = "heavy fan-in under copying";
@@ -868,7 +876,7 @@ pub fn gen_spec(seed: u64, focus: &str, tier: &str) -> RunSpec {
         (_, "C34") | (_, "C09") => rng.range(400, 2500),
         _ => rng.range(100, 600),
     } as usize;
-    let dynamic = focus == "C38" && rng.chance(4, 5);
+    let dynamic = (focus == "C38" && rng.chance(4, 5)) || (focus == "C10" && rng.chance(1, 4));
     let mut cfg = VmConfig {
         plan: plan.to_string(),
         workers,
@@ -881,7 +889,7 @@ pub fn gen_spec(seed: u64, focus: &str, tier: &str) -> RunSpec {
         },
         stress_factor: if focus != "C12" && rng.chance(1, 3) { Some(*rng.pick(&[4096usize, 16384, 65536, 262144, 1 << 20])) } else { None },
         nursery: if rng.chance(1, 2) { Some((1 << 20, *rng.pick(&[1usize << 20, 2 << 20, 4 << 20]))) } else { None },
-        layout32: if focus == "C29" { true } else { rng.chance(1, 25) },
+        layout32: if focus == "C29" { true } else if focus == "C31" { rng.chance(1, 8) } else { rng.chance(1, 25) },
         layout32_chunks: if focus == "C29" && rng.chance(1, 3) { rng.range(5, 40) as usize } else { 0 },
         no_finalizer: focus != "C06" && rng.chance(1, 20),
         no_reference_types: focus != "C06" && rng.chance(1, 20),
@@ -905,7 +913,7 @@ pub fn gen_spec(seed: u64, focus: &str, tier: &str) -> RunSpec {
         _ => Strategy::Sequential,
     };
     let mut mask = site::CLASS_LOCK | site::CLASS_SCHED | site::CLASS_BINDING | site::CLASS_SPIN;
-    let want_meta = matches!(focus, "C17" | "C18" | "C05" | "C12" | "C01");
+    let want_meta = matches!(focus, "C17" | "C18" | "C05" | "C12" | "C01" | "C37");
     if want_meta || sr.chance(1, 2) {
         mask |= site::CLASS_META_OBJ;
     }
@@ -963,8 +971,10 @@ pub fn gen_spec(seed: u64, focus: &str, tier: &str) -> RunSpec {
         cfg.layout32_chunks = cfg.layout32_chunks.max(3 * (cfg.heap_bytes >> 22) + 8);
     }
     if cfg.plan == "NoGC" {
-        // A stress GC under NoGC reaches `unreachable!("GC triggered in nogc")` by design.
+        // A stress GC under NoGC reaches `unreachable!("GC triggered in nogc")` by design; so does
+        // a dynamic heap whose current size is below the allocation budget.
         cfg.stress_factor = None;
+        cfg.dynamic_heap = None;
     }
     let mut programs: Vec<Vec<Op>> = (0..nmut).map(|_| gen_program(&mut wl, nops, fe, &prof)).collect();
     if focus == "C09" && rng.chance(4, 5) {
